@@ -90,3 +90,118 @@ REG.add(Contract(
         ]),
     },
     properties=["C01", "C03", "C04", "C11", "C13", "C14"]))
+
+# in_P: identifiers of those of the two filters that are "sub modules of" filters
+REG.macro("in_P2", ["f1", "f2", "n"], "(is_parent(f1) and n == fid(f1)) or (is_parent(f2) and n == fid(f2))")
+REG.macro("plain_dep", ["d"], "(not is_group(d[0])) and (not is_group(d[1]))")
+REG.macro("dep_of", ["n", "c"], "(mk_mod(False, n), mk_mod(False, c))")
+
+REG.add(Contract(
+    "get_dependency_between_modules", module=M_BFS,
+    params=dict(graph="Graph", dependent="Filter", dependent_upon="Filter"), returns="Bag[Dep]",
+    requires=["WF(graph)"],
+    raises=[("NetworkXError", "(not node(graph, fid(dependent))) or (not node(graph, fid(dependent_upon)))")],
+    ensures=[
+        "forall(Node, Node, lambda n, c: (dep_of(n, c) in result) == (desc(graph, fid(dependent), n) and imp(graph, n, c) and desc(graph, fid(dependent_upon), c) and (not in_P2(dependent, dependent_upon, n)) and (not in_P2(dependent, dependent_upon, c))))",
+        "forall(Dep, lambda d: implies(d in result, plain_dep(d)))",
+    ],
+    locals=dict(nodes_to_check="Bag[Node]", checked_nodes="Set[Node]", dependencies="Bag[Dep]", nodes_to_exclude="Bag[Node]"),
+    loops={
+        0: dict(sig="while nodes_to_check", invariant=[
+            "forall(Node, lambda n: implies(n in nodes_to_check, desc(graph, dependent_node, n)))",
+            "forall(Node, lambda n: implies(n in checked_nodes, desc(graph, dependent_node, n)))",
+            "forall(Node, Node, lambda a, b: implies((a in checked_nodes) and inh(graph, a, b), (b in checked_nodes) or (b in nodes_to_check)))",
+            "(dependent_node in checked_nodes) or (dependent_node in nodes_to_check)",
+            "forall(Node, lambda n: implies((n in checked_nodes) or ((n in nodes_to_check) and n != dependent_node), node(graph, n)))",
+            "forall(Node, Node, lambda n, c: (dep_of(n, c) in dependencies) == ((n in checked_nodes) and imp(graph, n, c) and (c in dependent_upon_nodes) and (n not in nodes_to_exclude) and (c not in nodes_to_exclude)))",
+            "forall(Dep, lambda d: implies(d in dependencies, plain_dep(d)))",
+        ], use_at_exit=["leastness(graph, dependent_node, checked_nodes)"]),
+        1: dict(sig="for child in children", invariant=[
+            "forall(Node, lambda n: (n in nodes_to_check) == ((n in pre(nodes_to_check)) or ((n in seen) and inh(graph, node, n))))",
+            "forall(Node, Node, lambda n, c: (dep_of(n, c) in dependencies) == ((dep_of(n, c) in pre(dependencies)) or (n == node and (c in seen) and imp(graph, node, c) and (c in dependent_upon_nodes) and (node not in nodes_to_exclude) and (c not in nodes_to_exclude))))",
+            "forall(Dep, lambda d: implies(d in dependencies, plain_dep(d)))",
+        ]),
+    },
+    properties=["C01", "C03", "C11", "C12", "C13", "C14", "C15"]))
+
+# E: nodes excluded by any_dependency_to_module_other_than
+REG.macro("E_other", ["g", "s", "O", "n"],
+          "((exists(Filter, lambda o: (o in O) and o != s and desc(g, fid(o), n))) or (is_parent(s) and n == fid(s))) "
+          "and not exists(Filter, lambda o: (o in O) and is_parent(o) and n == fid(o))")
+
+REG.add(Contract(
+    "any_dependency_to_module_other_than", module=M_BFS,
+    params=dict(graph="Graph", dependent="Filter", dependent_upons="Set[Filter]"), returns="Bag[Dep]",
+    requires=["WF(graph)"],
+    raises=[("NetworkXError", "(not node(graph, fid(dependent))) or exists(Filter, lambda o: (o in dependent_upons) and o != dependent and not node(graph, fid(o)))")],
+    ensures=[
+        "forall(Node, Node, lambda n, c: (dep_of(n, c) in result) == (desc(graph, fid(dependent), n) and (not E_other(graph, dependent, dependent_upons, n)) and imp(graph, n, c) and (not E_other(graph, dependent, dependent_upons, c)) and not desc(graph, fid(dependent), c)))",
+        "forall(Dep, lambda d: implies(d in result, plain_dep(d)))",
+    ],
+    locals=dict(nodes_to_exclude="Set[Node]", nodes_fulfilling_criteria="Bag[Dep]", nodes_to_check="Bag[Node]",
+                checked_nodes="Set[Node]"),
+    loops={
+        0: dict(sig="for dependent_upon in dependent_upons", invariant=[
+            "forall(Node, lambda n: (n in nodes_to_exclude) == exists(Filter, lambda o: (o in seen) and o != dependent and desc(graph, fid(o), n)))",
+            "forall(Filter, lambda o: implies((o in seen) and o != dependent, node(graph, fid(o))))",
+        ]),
+        1: dict(sig="for dependent_upon in dependent_upons", invariant=[
+            "forall(Node, lambda n: (n in nodes_to_exclude) == ((n in pre(nodes_to_exclude)) and not exists(Filter, lambda o: (o in seen) and is_parent(o) and n == fid(o))))",
+        ]),
+        2: dict(sig="while nodes_to_check", invariant=[
+            "forall(Node, lambda n: implies(n in nodes_to_check, (n in nodes_that_do_not_fulfill_criterion) or (n in nodes_to_exclude)))",
+            "forall(Node, lambda n: implies(n in checked_nodes, (n in nodes_that_do_not_fulfill_criterion) and (n not in nodes_to_exclude)))",
+            "forall(Node, lambda n: implies(n in nodes_that_do_not_fulfill_criterion, (n in checked_nodes) or (n in nodes_to_check) or (n in nodes_to_exclude)))",
+            "forall(Node, lambda n: implies((n in nodes_to_check) or (n in checked_nodes), node(graph, n)))",
+            "forall(Node, Node, lambda n, c: (dep_of(n, c) in nodes_fulfilling_criteria) == ((n in checked_nodes) and imp(graph, n, c) and (c not in nodes_to_exclude) and (c not in nodes_that_do_not_fulfill_criterion)))",
+            "forall(Dep, lambda d: implies(d in nodes_fulfilling_criteria, plain_dep(d)))",
+        ]),
+        3: dict(sig="for child in children", invariant=[
+            "forall(Node, lambda n: implies(n in nodes_to_check, (n in pre(nodes_to_check)) or ((n in seen) and imp(graph, node, n) and ((n in nodes_to_exclude) or (n in nodes_that_do_not_fulfill_criterion)))))",
+            "forall(Node, lambda n: implies(n in pre(nodes_to_check), n in nodes_to_check))",
+            "forall(Node, Node, lambda n, c: (dep_of(n, c) in nodes_fulfilling_criteria) == ((dep_of(n, c) in pre(nodes_fulfilling_criteria)) or (n == node and (c in seen) and imp(graph, node, c) and (c not in nodes_to_exclude) and (c not in nodes_that_do_not_fulfill_criterion))))",
+            "forall(Dep, lambda d: implies(d in nodes_fulfilling_criteria, plain_dep(d)))",
+        ]),
+    },
+    properties=["C01", "C03", "C12", "C13", "C14", "C15"]))
+
+REG.macro("E_rev", ["g", "S", "o", "n"],
+          "(exists(Filter, lambda s: (s in S) and s != o and desc(g, fid(s), n))) "
+          "and not exists(Filter, lambda s: (s in S) and is_parent(s) and n == fid(s))")
+REG.macro("N_rev", ["g", "o", "n"], "desc(g, fid(o), n) and not (is_parent(o) and n == fid(o))")
+
+REG.add(Contract(
+    "any_other_dependency_to_module_than", module=M_BFS,
+    params=dict(graph="Graph", dependents="Set[Filter]", dependent_upon="Filter"), returns="Bag[Dep]",
+    requires=["WF(graph)"],
+    raises=[("NetworkXError", "(not node(graph, fid(dependent_upon))) or exists(Filter, lambda s: (s in dependents) and s != dependent_upon and not node(graph, fid(s)))")],
+    ensures=[
+        # property C03: every reported pair has its importee inside the dependent-upon module's own set
+        "forall(Node, Node, lambda p, n: (dep_of(p, n) in result) == (N_rev(graph, dependent_upon, n) and imp(graph, p, n) and (not E_rev(graph, dependents, dependent_upon, p)) and not N_rev(graph, dependent_upon, p)))",
+        "forall(Dep, lambda d: implies(d in result, plain_dep(d)))",
+    ],
+    locals=dict(nodes_to_exclude="Set[Node]", nodes_fulfilling_criteria="Bag[Dep]", nodes_to_check="Bag[Node]",
+                checked_nodes="Set[Node]"),
+    loops={
+        0: dict(sig="for dependent in dependents", invariant=[
+            "forall(Node, lambda n: (n in nodes_to_exclude) == exists(Filter, lambda s: (s in seen) and s != dependent_upon and desc(graph, fid(s), n)))",
+            "forall(Filter, lambda s: implies((s in seen) and s != dependent_upon, node(graph, fid(s))))",
+        ]),
+        1: dict(sig="for dependent in dependents", invariant=[
+            "forall(Node, lambda n: (n in nodes_to_exclude) == ((n in pre(nodes_to_exclude)) and not exists(Filter, lambda s: (s in seen) and is_parent(s) and n == fid(s))))",
+        ]),
+        2: dict(sig="while nodes_to_check", invariant=[
+            "forall(Node, lambda n: implies(n in nodes_to_check, n in nodes_that_count_as_not_fulfilling_criterion))",
+            "forall(Node, lambda n: implies(n in checked_nodes, n in nodes_that_count_as_not_fulfilling_criterion))",
+            "forall(Node, lambda n: implies(n in nodes_that_count_as_not_fulfilling_criterion, (n in checked_nodes) or (n in nodes_to_check)))",
+            "forall(Node, Node, lambda p, n: (dep_of(p, n) in nodes_fulfilling_criteria) == ((n in checked_nodes) and imp(graph, p, n) and (p not in nodes_to_exclude) and (p not in nodes_that_count_as_not_fulfilling_criterion)))",
+            "forall(Dep, lambda d: implies(d in nodes_fulfilling_criteria, plain_dep(d)))",
+        ]),
+        3: dict(sig="for parent in parents", invariant=[
+            "forall(Node, lambda n: implies(n in nodes_to_check, n in nodes_that_count_as_not_fulfilling_criterion))",
+            "forall(Node, lambda n: implies(n in pre(nodes_to_check), n in nodes_to_check))",
+            "forall(Node, Node, lambda p, n: (dep_of(p, n) in nodes_fulfilling_criteria) == ((dep_of(p, n) in pre(nodes_fulfilling_criteria)) or (n == node and (p in seen) and imp(graph, p, node) and (p not in nodes_to_exclude) and (p not in nodes_that_count_as_not_fulfilling_criterion))))",
+            "forall(Dep, lambda d: implies(d in nodes_fulfilling_criteria, plain_dep(d)))",
+        ]),
+    },
+    properties=["C01", "C03", "C12", "C13", "C14", "C15"]))
